@@ -165,7 +165,7 @@ void record(const char* kind, const char* site, Ev const& e, Fsm& fsm, int v = -
     char tmp[48];
     snprintf(tmp, sizeof tmp, "%d %d", st().depth, v);
     s += tmp;
-    if (st().reads) { s += ' '; s += Reads<Fsm>::get(fsm); }
+    if constexpr (!std::is_const_v<Fsm>) { if (st().reads) { s += ' '; s += Reads<Fsm>::get(fsm); } }
     tr().line(s);
 }
 
@@ -267,7 +267,10 @@ template <class Ev, class Fsm> void exception_cb(const char* site, Ev const& e, 
 template <class Ev, class Fsm> bool deferred_pred_cb(const char* site, int atom, Ev const& e, Fsm& fsm) {
     bool v = gval(atom);
     DepthGuard dg;
+    bool r = st().reads;      // the Fsm argument is const here: no in-callback reads
+    st().reads = false;
     record("DF", site, e, fsm, v ? 1 : 0);
+    st().reads = r;
     return v;
 }
 
